@@ -1025,8 +1025,10 @@ class ModelGen:
     make() -> case dict {text, name, points:[{name:[q,...]}], ranges:{idx:[a,s,b]}, stream, features}"""
 
     def __init__(self, rng, npoints=3, count=None, loops=None, functions=None, delay=False, twin_calls=0.3,
-                 bilinear_attr=False):
+                 bilinear_attr=False, pkg_funcs=0.15, long_loops=0.1):
         self.bilinear_attr = bilinear_attr
+        self.pkg_funcs = pkg_funcs
+        self.long_loops = long_loops
         self.ranges = {}
         self.twin_calls = twin_calls
         self.rng = rng
@@ -1043,9 +1045,11 @@ class ModelGen:
         return "%s%d" % (p, self.uid)
 
     # ---- functions -------------------------------------------------------------------------------
-    def function(self, name, callable_funcs, stream="main"):
+    def function(self, name, callable_funcs, stream="main", nin=None, nout=None, package=None):
         r = self.rng
-        nin, nout, ntmp = r.randint(1, 3), (1 if r.random() < 0.75 else 2), r.randint(0, 2)
+        nin0, nout0, ntmp = r.randint(1, 3), (1 if r.random() < 0.75 else 2), r.randint(0, 2)
+        nin = nin if nin is not None else nin0
+        nout = nout if nout is not None else nout0
         ins = ["a%d" % i for i in range(nin)]
         outs = ["r%d" % i for i in range(nout)]
         tmps = ["t%d" % i for i in range(ntmp)]
@@ -1126,6 +1130,10 @@ class ModelGen:
         if tmps:
             decl += "protected\n" + "".join("  Real %s;\n" % a for a in tmps)
         txt = "function %s\n%salgorithm\n%s\nend %s;\n" % (name, decl, "\n".join(lines), name)
+        if package:
+            # the same short name in different packages: the functions are identified by their scoped names
+            txt = "package %s\n%send %s;\n" % (package, txt, package)
+            return txt, ("%s.%s" % (package, name), nin, nout)
         return txt, (name, nin, nout)
 
     # ---- the model ---------------------------------------------------------------------------------
@@ -1141,6 +1149,15 @@ class ModelGen:
             funcs_txt += t
             funcs.append(sig)
             feats.add("function")
+        pkg = []
+        if r.random() < self.pkg_funcs:
+            k = r.randint(1, 2)
+            for pk in ("PkA", "PkB"):
+                t, sig = self.function("curve", [f for f in funcs if f[2] == 1 and "." not in f[0]], nin=k, nout=1, package=pk)
+                funcs_txt += t
+                funcs.append(sig)
+                pkg.append(sig)
+            feats.add("same-named-functions")
         if self.bilinear_attr:
             # a function bilinear in its two arguments, used in attributes of variables (metadata function)
             funcs_txt += ("function fb\n  input Real a;\n  input Real c;\n  output Real b;\nalgorithm\n"
@@ -1293,6 +1310,12 @@ class ModelGen:
         for b in bools:
             eqs.append("  %s = %s;" % (b, self.eg.boolean(sc, 2)))
             self.count("eq:boolean")
+        if pkg:
+            a1 = ", ".join(self.eg.gen(sc, 1) for _ in range(pkg[0][1]))
+            a2 = ", ".join(self.eg.gen(sc, 1) for _ in range(pkg[1][1]))
+            eqs.append("  %s = %s(%s) %s %s * %s(%s);" % (self.eg.pick(algs), pkg[0][0], a1, self.eg.pick(["+", "-"]),
+                                                       self.eg.pick(["2", "3"]), pkg[1][0], a2))
+            self.count("eq:same-named-functions")
         if self.bilinear_attr:
             eqs.append("  %s = fb(%s, %s);" % (self.eg.pick(algs), self.eg.gen(sc, 1), self.eg.gen(sc, 1)))
         # ---- multi-output function call
@@ -1332,6 +1355,20 @@ class ModelGen:
             if sc.vecs.get(L):
                 eqs.append("  %s = %s;" % (self.eg.pick(sc.vecs[L]), self.vec(sc, L, 2)))
                 self.count("eq:slice-lhs-%d" % L)
+        # ---- a matrix row equated to a (column) vector expression, also an element-wise built-in function of it
+        for (mname, R, C) in mats:
+            if sc.vecs.get(C) and r.random() < 0.6:
+                k = self.eg.wchoice([("fn1", 4), ("fn2", 2), ("plain", 2)])
+                V = lambda: self.vec(sc, C, 1)
+                if k == "fn1":
+                    rhs = call(self.eg.pick(["abs", "sign", "floor", "ceil"]), V())
+                elif k == "fn2":
+                    rhs = call(self.eg.pick(["max", "min"]), V(), V())
+                else:
+                    rhs = V()
+                eqs.append("  %s[%d,:] = %s;" % (mname, r.randint(1, R), rhs))
+                feats.add("row-equation")
+                self.count("eq:row-" + k)
         # ---- whole-matrix equations (element-wise; both sides of the same shape, square or not)
         for (mname, R, C) in mats:
             if r.random() < 0.7:
@@ -1349,6 +1386,20 @@ class ModelGen:
             for _ in range(r.randint(1, 2)):
                 eqs.append(self.for_equation(sc, arrays, mats, nval if has_n else None))
                 feats.add("for-equation")
+        # ---- a long for-equation (block boundaries of serial maps: 9, 17, 25 iterations and neighbours)
+        if r.random() < self.long_loops:
+            n_it = self.eg.pick([9, 17, 25, 9, 17, 8, 10, 16, 18, 26])
+            lo = self.eg.pick([1, 1, 2])
+            L = lo + n_it - 1
+            declare("", "Real", "vl", "gen", (L,))
+            idx = self.fresh("i")
+            bsc = sc.copy()
+            bsc.atoms["gen"] = [a for a in bsc.atoms["gen"] if "[" not in a][:6] + [idx, "vl[%s]" % idx]
+            eqs.append("  for %s in %d:%d loop\n    vl[%s] = %s;\n  end for;" % (idx, lo, L, idx, self.eg.gen(bsc, 1)))
+            if lo == 2:
+                eqs.append("  vl[1] = 0;")
+            feats.add("long-loop")
+            self.count("for:long-%d" % n_it)
         # ---- delay
         if self.want_delay or r.random() < 0.08:
             tgt = self.eg.pick(algs)
